@@ -65,9 +65,11 @@ class _RangeExprHandler:
         return self._sdv.references
 
     def resolve(self, symbols: SymbolTable):
-        if self.range_expr_str is None:
-            self.range_expr_str = self._sdv.resolve(symbols).value_when_no_dir_dependencies()
-            self.validator = _RangeValidator(self.range_expr_str)
+        range_expr_str = self._sdv.resolve(symbols).value_when_no_dir_dependencies()
+        if range_expr_str != self.range_expr_str:
+            # (this object may outlive a test case: the value of a referenced symbol may differ between cases)
+            self.range_expr_str = range_expr_str
+            self.validator = _RangeValidator(range_expr_str)
 
 
 class _LineNumRangeTransformerDdv(StringTransformerDdv):
